@@ -182,6 +182,14 @@ func checkC01(w *World, r *Report) {
 	ruleSyncArm(w, r, "C01")
 	ruleFinalRender(w, r, "C01")
 	checkNoRenderAfterError(w, r, "C01.R5d")
+	ruleStateAgrees(w, r, "C01")
+	ruleFlushDrainsPending(w, r, "C01", fi)
+	if trig, pred := w.triggerFn(), w.completionPredicate(); trig != nil && pred != nil {
+		opts := pathOpts{InlineDepth: 3, Inline: noInline(trig, pred)}
+		ruleClamp(w, r, "C01", trig, pred, opts)
+		rulePredicate(w, r, "C01", trig, pred, opts)
+	}
+	ruleWrappersUnwrap(w, r, "C01")
 }
 
 // ruleFinalRender (C03c): on the container's done arm, without a remembered error and under
@@ -477,6 +485,10 @@ func checkC03(w *World, r *Report) {
 		ruleClamp(w, r, "C03", trig, pred, opts)
 	}
 	ruleStatisticsFaithful(w, r, "C03")
+	ruleStateAgrees(w, r, "C03")
+	ruleNoListenerNoOutput(w, r, "C03")
+	ruleCursorUp(w, r, "C03")
+	ruleTriggerCancels(w, r, "C03")
 }
 
 // ruleStatisticsFaithful: the Statistics handed to fillers/decorators copy the state's fields.
@@ -636,6 +648,8 @@ func checkC13(w *World, r *Report) {
 	ruleFlushWrites(w, r, "C13")
 	checkLateResults(w, r, "C13.R3")
 	ruleDelayWriter(w, r, "C13")
+	ruleCursorUp(w, r, "C13")
+	ruleStateAgrees(w, r, "C13")
 	// rows are written only inside flush
 	fl := w.flushFn()
 	n := 0
@@ -914,6 +928,16 @@ func checkC14(w *World, r *Report) {
 	ruleEndArm(w, r, "C14")
 	ruleUnwrap(w, r, "C14")
 	checkCloseOnce(w, r, "C14.R5")
+	ruleWrappersUnwrap(w, r, "C14")
+	ruleBarWait(w, r, "C14")
+	checkRenderReqReceivers(w, r, "C14")
+	checkLiveness(w, r, "C14", nil)
+	ruleStateAgrees(w, r, "C14")
+	fi := w.analyseFlush()
+	ruleFlushOutcome(w, r, "C14", fi)
+	ruleFlushDrainsPending(w, r, "C14", fi)
+	ruleTerminalCancel(w, r, "C14", fi)
+	ruleTriggerCancels(w, r, "C14")
 }
 
 // checkC11exit re-checks the exit order and the aborted derivation under another prefix.
@@ -1239,6 +1263,9 @@ func checkC15(w *World, r *Report) {
 	checkCloseOnce(w, r, "C15.R5c")
 	checkEndOnExit(w, r, "C15")
 	ruleRenderTerminal(w, r, "C15")
+	ruleExtenderError(w, r, "C15")
+	ruleFlushDrainsPending(w, r, "C15", fi)
+	checkStateReply(w, r, "C15")
 }
 
 // ruleErrorEdge (C15.R2): on the edge where render returned an error: go drain, container cancel,
